@@ -373,7 +373,8 @@ def quirk_capture(rng):
         return GHDR + pk(clean(rng, 10) + bytes(f) + frame(rng, 16)) + pk(clean(rng, 10) + frame(rng, 16))
     if c == 8:      # record-level oddities: incl_len 0, incl_len beyond the end of the file, orig_len different
         g = l234(rng) + inetx_bytes(rng, good(2))
-        return GHDR + rec_bytes(b"", incl=0) + rec_bytes(g, orig=9999) + rec_bytes(g, incl=len(g) + rng.randrange(1, 50))
+        last = rng.choice([len(g) + rng.randrange(1, 50), 0x7FFFFFFF, 0xFFFFFFFF, len(g) - 1, 0x47])
+        return GHDR + rec_bytes(b"", incl=0) + rec_bytes(g, orig=9999) + rec_bytes(g, incl=last)
     if c == 9:      # file shorter than / exactly the global header, or with a partial record header
         return (GHDR + pk(good(1)))[:rng.choice([0, 1, 23, 24, 25, 39, 40, 41])]
     if c == 10:     # boundary of the length filter: 70 and 71 bytes
